@@ -287,6 +287,9 @@ class Interp:
         if isinstance(v, Choice):
             if v.kind == "bool":
                 return Const(self.decide("bool:" + v.name, [False, True]))
+            if v.kind == "optional":
+                k = self.decide("opt:" + v.name, ["none", "some"])
+                return NONE if k == "none" else Unk(v.name, "object")
             if v.kind.startswith("enum:"):
                 cname = v.kind[5:]
                 ci = self.P.cls(cname)
@@ -326,8 +329,18 @@ class Interp:
             return 1 if signs.pop() else -1
         return None
 
+    def _copysign_reduce(self, p: Poly) -> Poly:
+        """c * copysign(a, b) has the sign of c * b (a magnitude, taken as non-zero)."""
+        sm = p.single_monomial()
+        if sm is not None and len(sm[0]) == 1 and sm[0][0][1] == 1:
+            ent = self.apps.get(sm[0][0][0])
+            if ent is not None and ent[0] == "copysign" and len(ent[1]) == 2:
+                return ent[1][1] * Poly.const(sm[1])
+        return p
+
     def sign(self, p: Poly):
         """-1, 0, 1 for the sign of p; None when unordered (NaN)."""
+        p = self._copysign_reduce(p)
         if p.is_const():
             c = p.const_value()
             return (c > 0) - (c < 0)
@@ -348,7 +361,7 @@ class Interp:
         return -s if flip else s
 
     def num_compare(self, a: Poly, op, b: Poly) -> bool:
-        d = a - b
+        d = self._copysign_reduce(a - b)
         if d.is_const() or self.sign_mode != "bool" or self.definite_sign(d) is not None:
             s = self.sign(d)
             if s is None:
